@@ -8,10 +8,10 @@ use crate::driver::{AnyFlow, ReqCfg};
 use crate::engine::{guarded, Report, Tier, Violation};
 use crate::refmodel::{head, redirect};
 
-pub const RULE: &str = "full product: method (9) x status 300..=399 x policy {Never, SameHost} x response body {Content-Length: 0, Content-Length: 3 + body, chunked body, no framing header} x Location {/next, absent, one that resolves to the request's own URI, one on another host} x request mode {plain; HTTP/1.0 request (GET, HEAD, POST); an interim 103 handed out by the same flow first (GET, POST, DELETE); loaded (cookie, referer, origin, user-agent and the caller's own Transfer-Encoding: chunked; body-less methods with send-body-despite-method; two superfluous try_response polls after the response was received); send-body-despite-method (body-less methods); Expect: 100-continue refused by the 3xx itself, and late 100 delivered in the same buffer as the 3xx (body methods)} = 115200 cells, each evaluated with the library's logging off and again with it at level Trace (debug!/trace! arguments evaluated and formatted), each driven through the real flow from Prepare to the state after the response (through RecvBody where there is one), then as_new_flow and the head of the new request; plus method (9) x status {300,301,302,303,305,307,308,399} x policy along a chain of 24 redirects of that status (every fifth to another host), the table checked at every hop. distinct = distinct (method, status class, body kind, outcome) cells";
+pub const RULE: &str = "full product: method (9) x status 300..=399 x policy {Never, SameHost} x response body {Content-Length: 0, Content-Length: 3 + body, chunked body, no framing header} x Location {/next, absent, one that resolves to the request's own URI, one on another host, a relative one whose query holds a complete URL, the https twin of the request's URI} x request mode {plain; HTTP/1.0 request (GET, HEAD, POST); an interim 103 handed out by the same flow first (GET, POST, DELETE); loaded (cookie, referer, origin, user-agent and the caller's own Transfer-Encoding: chunked; body-less methods with send-body-despite-method; two superfluous try_response polls after the response was received); send-body-despite-method (body-less methods); Expect: 100-continue refused by the 3xx itself, and late 100 delivered in the same buffer as the 3xx (body methods)} = 172800 cells, each evaluated with the library's logging off and again with it at level Trace (debug!/trace! arguments evaluated and formatted), each driven through the real flow from Prepare to the state after the response (through RecvBody where there is one), then as_new_flow and the head of the new request; plus method (9) x status {300,301,302,303,305,307,308,399} x policy along a chain of 24 redirects of that status (every fifth to another host), the table checked at every hop. distinct = distinct (method, status class, body kind, outcome) cells";
 
 const METHODS: [&str; 9] = ["GET", "HEAD", "POST", "PUT", "DELETE", "CONNECT", "OPTIONS", "TRACE", "PATCH"];
-const BODIES: [&str; 16] = ["cl0", "cl3", "chunked", "none", "cl0-noloc", "cl3-noloc", "chunked-noloc", "none-noloc", "cl0-self", "cl3-self", "chunked-self", "none-self", "cl0-xhost", "cl3-xhost", "chunked-xhost", "none-xhost"];
+const BODIES: [&str; 24] = ["cl0", "cl3", "chunked", "none", "cl0-noloc", "cl3-noloc", "chunked-noloc", "none-noloc", "cl0-self", "cl3-self", "chunked-self", "none-self", "cl0-xhost", "cl3-xhost", "chunked-xhost", "none-xhost", "cl0-urlq", "cl3-urlq", "chunked-urlq", "none-urlq", "cl0-https", "cl3-https", "chunked-https", "none-https"];
 
 fn check_cell(method: &str, status: u16, same_host: bool, body: &str) -> (Option<(String, String)>, String) {
     // body kinds ending in "-noloc" carry no Location header: the redirect state must be entered all the same
@@ -22,6 +22,11 @@ fn check_cell(method: &str, status: u16, same_host: bool, body: &str) -> (Option
         (b, true, "Location: /p\r\n", "/p")
     } else if let Some(b) = body.strip_suffix("-xhost") {
         (b, true, "Location: http://b.test/next\r\n", "/next")
+    } else if let Some(b) = body.strip_suffix("-urlq") {
+        // "-urlq": a relative reference whose query carries a complete URL; "-https": the https twin of the request's URI
+        (b, true, "Location: /next?return_to=https://b.test/home\r\n", "/next?return_to=https://b.test/home")
+    } else if let Some(b) = body.strip_suffix("-https") {
+        (b, true, "Location: https://a.test/p\r\n", "/p")
     } else {
         (body, true, "Location: /next\r\n", "/next")
     };
